@@ -17,6 +17,7 @@ def mc_module(prog):
 
 def conc_cfg(consts, invariants, deadlock=True, view=True):
     c = dict(consts)
+    c.setdefault("CoverProcs", set())
     ls = ["SPECIFICATION " + ("EagerSpec" if c.get("Record") else "Spec"), "CONSTANTS", "  Prog <- MCProg"]
     for k, v in c.items():
         ls.append("  %s = %s" % (k, tla_val(v)))
@@ -58,6 +59,34 @@ def gen_schedules(prog, consts, num, seed, stats):
             out.append(p["sched"])
     stats["sched_generated"] = stats.get("sched_generated", 0) + len(out)
     return out
+
+
+def gen_cover_schedules(prog, consts, cover, stats, cap, timeout=400):
+    """Coverage-directed export (spec/WalConc.tla CoverSpec/CoverPairs): one shortest schedule prefix per reachable
+    co-location of two goroutines at a pair of labels, found by TLC breadth-first search."""
+    c = dict(consts, Record=True, CoverProcs=set(cover))
+    ls = ["SPECIFICATION CoverSpec", "CONSTANTS", "  Prog <- MCProg"]
+    for k, v in c.items():
+        ls.append("  %s = %s" % (k, tla_val(v)))
+    ls += ["INVARIANT CoverPairs", "VIEW View", "CHECK_DEADLOCK FALSE"]
+    r = tlc("MCWalConc", "\n".join(ls) + "\n", extra={"MCWalConc.tla": mc_module(prog)}, timeout=timeout, workers=1, heap="8g")
+    if r.error and r.error != "timeout":
+        raise Inconclusive("WalConc coverage export failed: %s\n%s" % (r.error, r.out[-2000:]))
+    ps = tlc_payloads(r, "SCHED")
+    stats["cover_states"] = stats.get("cover_states", 0) + r.distinct
+    stats["cover_colocations"] = stats.get("cover_colocations", 0) + sum(p["fresh"] for p in ps)
+    scheds = [p["sched"] for p in ps if p["sched"]]
+    # drop schedules that are a proper prefix of another one
+    keys = sorted({json.dumps(s) for s in scheds}, key=len, reverse=True)
+    keep = []
+    for k in keys:
+        body = k[:-1]
+        if not any(o.startswith(body + ",") for o in keep):
+            keep.append(k)
+    out = [json.loads(k) for k in keep]
+    random.Random(len(out)).shuffle(out)
+    stats["cover_schedules"] = stats.get("cover_schedules", 0) + len(out)
+    return out[:cap]
 
 
 def ordered_pairs(sched):
@@ -160,6 +189,11 @@ def check_conc(pid, tier, seed):
             design_run(prog, dconsts, stats, timeout=(240, 1500)[ti])
         ss = gen_schedules(prog, consts, (400, 3000)[ti], seed + pi, stats)
         pick, cov = select(ss, (40, 300)[ti])
+        cover = [30] if closer else list(range(1, consts["NReaders"] + 1))
+        cs = gen_cover_schedules(prog, consts, (cover if ti == 0 else []), stats, (150, 1500)[ti], timeout=(300, 1500)[ti])
+        pick = pick + [s for s in cs if s not in pick]
+        for s in cs:
+            cov |= ordered_pairs(s)
         allpairs |= {(pi,) + p for p in cov}
         for k, sc in enumerate(pick):
             scen.append({"id": "%s-p%d-s%d" % (pid, pi, k), "mode": "forced", "world": "sim", "prog": prog,
